@@ -15,7 +15,7 @@ if status == "fixed":
     e.update({"commit": c, "id": did, "text": "fixed: property=%s %s %s" % (prop, c, text), "input": inp, "regress": reg})
 else:
     e.update({"id": did, "text": text, "input": inp, "identified_by": reg})
-e["found_by"] = "fourth bug-hunt round, lead " + lead
+e["found_by"] = "fifth bug-hunt round, lead " + lead
 d["findings"].append(e)
 json.dump(d, open(p, "w"), indent=1, ensure_ascii=False)
 print(did, e.get("commit", "known"))
